@@ -486,6 +486,7 @@ func negMissing(c *Case, service bool, mem []member, k int) {
 }
 
 var (
+	reDotted = regexp.MustCompile(`eu\.west\.svc-[a-z]|svc\.[a-z]`) // generated service names containing dots
 	reDigits = regexp.MustCompile(`[0-9]+`)
 	reQuoted = regexp.MustCompile(`"[^"]*"`)
 	reNames  = regexp.MustCompile(`\b(svc-[a-z]|base[0-9]|second|net[0-9]|vol[0-9]|sec[0-9]|cfg[0-9])\b`)
@@ -494,6 +495,7 @@ var (
 
 func errClass(root string, err error) string {
 	m := strings.ReplaceAll(err.Error(), root, "")
+	m = reDotted.ReplaceAllString(m, "svc-z")
 	if i := strings.Index(m, "\n"); i > 0 {
 		m = m[:i] // first line only (cycle reports list the whole chain)
 	}
